@@ -139,6 +139,7 @@ func c06Assignable(t, p string) bool {
 // Cases.
 
 type c06Case struct {
+	Pkg      string            `json:"pkg,omitempty"` // package (and directory) name, default p<i>
 	Name     string            `json:"name"`
 	Lox      string            `json:"lox"`
 	User     string            `json:"user"`
@@ -303,6 +304,19 @@ func c06Cases(quick bool) []*c06Case {
 	add("discard/wrong-signature", "@start s = a*! B\na = A\n", "type D struct{ V int }\n\nfunc (d D) Discard() int { return 0 }\n\nfunc (p *parser) on_a(t Token) D { return D{} }\n\nfunc (p *parser) on_s(xs []D, b Token) int { return 1 }\n", nil, false, 0)
 	add("discard/token-without-method", "@start s = A*! B\n", "func (p *parser) on_s(xs []Token, b Token) int { return 1 }\n", nil, false, 0)
 	add("discard/token-with-method", "@start s = A*! B\n", "func (t Token) Discard() bool { return t.Idx%2 == 1 }\n\nfunc (p *parser) on_s(xs []Token, b Token) int {\n\tn := 0\n\tfor i := 100; i < b.Idx; i++ {\n\t\tif i%2 == 0 {\n\t\t\tn++\n\t\t}\n\t}\n\tp.expect(\"number of tokens delivered for A*!\", any(len(xs)), any(n))\n\treturn 1\n}\n", nil, true, 1)
+	// a parser package that has the NAME of a package it imports (under an alias):
+	// the imported type must stay qualified in the generated code
+	{
+		user := c06UserHead("PKG", nil)
+		user = strings.Replace(user, "\t\"strings\"\n", "\t\"strings\"\n\tstdtime \"time\"\n", 1)
+		methods := "func (p *parser) on_a(_ Token) stdtime.Duration { return stdtime.Duration(14) }\n\nfunc (p *parser) on_s(x stdtime.Duration, _ Token) int {\n\tp.expect(\"parameter of on_s for term a\", any(x), any(stdtime.Duration(14)))\n\treturn 1\n}\n"
+		cs := &c06Case{Pkg: "time", Name: "layout/package-named-like-an-imported-package", Lox: c06LoxHead + "@start s = a B\na = A\n", User: user + "\n" + methods, ExpectOK: true, Checks: 1}
+		out = append(out, cs)
+		user2 := c06UserHead("PKG", nil)
+		user2 = strings.Replace(user2, "\t\"strings\"\n", "\t\"strings\"\n\tstdbytes \"bytes\"\n", 1)
+		methods2 := "type Buffer struct{ local int }\n\nvar theBuf = stdbytes.NewBufferString(\"q\")\n\nfunc (p *parser) on_a(_ Token) *stdbytes.Buffer { return theBuf }\n\nfunc (p *parser) on_s(x fmt.Stringer, _ Token) int {\n\tp.expect(\"parameter of on_s for term a\", any(x), any(fmt.Stringer(theBuf)))\n\treturn 1\n}\n"
+		out = append(out, &c06Case{Pkg: "bytes", Name: "layout/package-named-like-an-imported-package-with-local-twin", Lox: c06LoxHead + "@start s = a B\na = A\n", User: user2 + "\n" + methods2, ExpectOK: true, Checks: 1})
+	}
 	// Axis 3: layouts.
 	base := "func (p *parser) on_a(_ Token) S { return S{V: 7} }\n\n"
 	okS := "func (p *parser) on_s(x S, _ Token) int {\n\tp.expect(\"parameter of on_s\", any(x), any(S{V: 7}))\n\tvar zero int\n\treturn zero\n}\n"
@@ -402,6 +416,9 @@ func c06Batch(tag string, cases []*c06Case, st *mc.Stats, mu *sync.Mutex) []mc.V
 	var pkgs []st3.Pkg
 	for i, cs := range cases {
 		pkg := fmt.Sprintf("p%d", i)
+		if cs.Pkg != "" {
+			pkg = cs.Pkg
+		}
 		user := strings.Replace(cs.User, "package PKG\n", "package "+pkg+"\n", 1)
 		res := ws.RunFast(&pipe.Spec{Lox: map[string]string{"g.lox": cs.Lox}, Go: map[string]string{"user.go": user}}, importerFor())
 		mu.Lock()
